@@ -225,7 +225,10 @@ def Fn.indexOf (f : Fn α) (n : Nat) : Option Nat := f.ps.findIdx? (fun p => p.n
 def getValue (F : List α → α) (f : Fn α) : α := F f.vals
 
 /-- `getFirstOrderDerivative(variable)` (h:153-157): the function's derivative for that *name* times
-the derivative of the transformed parameter of that name -/
+the derivative of the transformed parameter of that name.  The transformed parameter is looked up
+in `getParameters()` by the same full name that is forwarded to the function (after the `fix:`
+"derivatives of a reparametrised function with a non-empty namespace" of findings/C11.json; before
+it the lookup prepended the namespace a second time and always raised for a namespaced function). -/
 def Wr.d1 (pi : α) (dF : List α → Nat → α) (f : Fn α) (w : Wr α) (n : Nat) : Except Exc α :=
   match f.indexOf n, findTP n w.params with
   | some i, some tp => .ok (dF f.vals i * tp.d1 pi)
